@@ -493,8 +493,8 @@ RUN LEVEL: see `BV/Props/C08Run.lean`.  The stream model now has a run-level obj
 (`BV/Model/StreamRun.lean`: `run` over a list of calls with the concatenated requests and closed flags);
 `BlocksOK` is derived from it for whole histories (`nonfinal_requests_cover_blocks_run`), the one-shot
 clause is stated over it (`oneshot_run_contract`).  The structure of a never-flushed run is one theorem
-(`never_flushed_run_structure`); the SUM over a run is `stream_total_le_bound_run_partial`, with the log
-arithmetic `NFLogArith` as its one explicit, still unproved hypothesis.
+(`never_flushed_run_structure`); the SUM over a run is `stream_total_le_bound_run` (growth bound per
+meta-block as the only payload hypothesis).
 The two models of the head (`BV.Header.streamStart`, `BV.Stream.encMagic/encPrelude`) are tied
 to the same code by their correspondence runs, not to each other by a theorem.
 -/
